@@ -109,7 +109,7 @@ def replay(doc):
     rep = lib.Report(PID, "quick", "model_checking", evidence=False)
     with lib.Scratch("c15r") as sc:
         at.set_tmpdir(sc.path("files"))
-        rec = at.record_c15({k: case[k] for k in ("id", "kind", "fmts", "lines")})
+        rec = at.record_c15({k: case[k] for k in ("id", "kind", "fmts", "lines", "serial0") if k in case})
         res = lib.trace_validate("Trace_AtomTable", "Trace_AtomTable_C15.cfg", [rec], sc, chunks=1)
         res["verdicts"] = [v for v in res["verdicts"] if v[1] != "skip"]
         rep.add_trace(res, {rec["id"]: rec}, "C15")
